@@ -290,7 +290,7 @@ func runC10Case(c *fw.Ctx, id string, v refmatch.Variant, w window, pairs bool) 
 	}
 	if pairs {
 		r0 := c.Rng
-		for i := 0; i < 250; i++ {
+		for i := 0; i < 800; i++ {
 			a, b := injs[r0.Intn(len(injs))], injs[r0.Intn(len(injs))]
 			tag := fmt.Sprintf("%s pair=%s#%d/%s+%s#%d/%s", id, a.key.Op, a.key.K, a.cl.name, b.key.Op, b.key.K, b.cl.name)
 			r := runC10(c, v, w, map[simnet.FaultKey]simnet.Fault{a.key: a.cl.f, b.key: b.cl.f}, false)
